@@ -10,6 +10,7 @@
 import AcnModel.DataClient
 import AcnProofs.Lemmas.DataClient
 import AcnProofs.Lemmas.CalendarHttpDate
+import AcnProofs.Lemmas.CalendarParse
 
 namespace Acn.C20
 open Acn Acn.Calendar Acn.HttpDate Acn.DataClient
@@ -226,6 +227,26 @@ example : formatRfc1123 1709210096 = "Thu, 29 Feb 2024 12:34:56 GMT" ∧
     parseRfc1123 "Thu, 29 Feb 2024 24:00:00 GMT" = none ∧
     formatRfc1123 tMin = "Wed, 01 Jan 1000 00:00:00 GMT" ∧
     formatRfc1123 (tMax - 1) = "Fri, 31 Dec 9999 23:59:59 GMT" := by
+  decide +kernel
+
+/-- conversely, the parser accepts NOTHING but RFC-1123 renderings: if `s` parses to `t` then `s`
+    has the fixed width 29, starts with a weekday name, and from the comma on it is — up to letter
+    case — exactly `http_date`'s rendering of `t`; and `t` lies in the years 1–9999.  (The weekday
+    name is not checked against the date, exactly as in `strptime`.)  With `parse_format` this makes
+    "the instant an RFC-1123 string denotes" unambiguous. -/
+theorem parse_sound (s : String) (t : Int) (h : parseRfc1123 s = some t) :
+    s.toList.length = 29 ∧
+    (∃ w, 0 ≤ w ∧ w < 7 ∧ (s.toList.take 3).map Char.toLower =
+      [(wdName w).1.toLower, (wdName w).2.1.toLower, (wdName w).2.2.toLower]) ∧
+    (s.toList.drop 3).map Char.toLower = ((formatRfc1123 t).toList.drop 3).map Char.toLower ∧
+    1 ≤ (fieldsOfSeconds t).y ∧ (fieldsOfSeconds t).y ≤ 9999 := by
+  have := parseChars_sound (l := s.toList) (t := t) h
+  simpa only [formatRfc1123, String.toList_ofList] using this
+
+example : parseRfc1123 "mon, 29 FEB 2024 12:34:56 gmt" = some 1709210096 ∧
+    parseRfc1123 "Thu, 29 Feb 2024 12:34:56 GMT " = none ∧
+    parseRfc1123 "Thu, 29 Feb 2024 12:34:56 UTC" = none ∧
+    parseRfc1123 "Thu, 9 Feb 2024 12:34:56 GMT" = none := by
   decide +kernel
 
 /-- converting an instant to ANY zone (arbitrary offset function, so every DST rule) yields an
